@@ -333,3 +333,9 @@ def capture_times(rep, repo):
         rep.ob('C04.capture', f'{side}: eat starts at TMAX, lst at TMIN', ok)
         if not ok:
             rep.violate('C04.capture', mod, f, 'eat = TMAX; lst = TMIN', f'wave_capture_{side}: eat must start at TMAX and lst at TMIN (neutral elements of min/max)', node=f)
+
+
+def thorough(rep, repo):
+    """Thorough tier: the quick rules plus checker self-validation on the C04 slice of the mutation corpus."""
+    from kvstatic import thorough as thorough_mod
+    thorough_mod.selftest_slice(rep, repo, 'C04')
